@@ -66,7 +66,7 @@ class SubsectionIO(RawIOBase):
 
     @_raise_if_file_closed
     def read(self, size: int = -1) -> bytes:
-        if size < 0:
+        if size is None or size < 0:
             size = self._size - self._seek
         if self._offset + self._seek > self._end:
             # if attempting to read after the section, return nothing
@@ -209,7 +209,7 @@ class SplitFileMerger(RawIOBase):
 
     @_raise_if_file_closed_generic
     def read(self, n: int = -1) -> bytes:
-        if n < 0:
+        if n is None or n < 0:
             n = max(self._total_size - self._fake_seek, 0)
         elif self._fake_seek + n > self._total_size:
             n = max(self._total_size - self._fake_seek, 0)
